@@ -84,3 +84,18 @@ PROPS["C17"] = dict(
     exhaustive_axes="all 120 protection histories of length <= 4; k = 1..16 for sizes near page boundaries",
     assumptions=["non-sanitized gcc -O2 build so raw SIGSEGV/SIGBUS/SIGABRT are observed", "Linux mmap/mprotect page protection (HAVE_PAGE_PROTECTION path)"],
 )
+
+PROPS["C13"] = dict(
+    name="c13", sources=["props/c13.cpp"], engine="enumerator",
+    builds=[("asan", "native"), ("asan", "noasm")],
+    builds_thorough=[("asan", "native"), ("asan", "noasm"), ("asan", "portable"), ("asan", "noti")],
+    level="exploration",
+    rule=("Differential: each call is made with disjoint exact-size (ASan-poisoned) buffers and again with out = in + off inside one exact-size arena; return code, output, detached tag and "
+          "reported length must be identical, open/decrypt results must equal the original message, and bytes outside both buffers must be untouched. Exact aliasing (off=0): every length "
+          "0..1280 for all 13 stream xor[_ic] functions and encrypt / encrypt_detached / decrypt / decrypt_detached of the 6 AEADs (+ AES-256-GCM afternm); arbitrary overlap: every offset "
+          "-80..+80 x 28 lengths (all residues mod 64 over 0..1280; 10 for the public-key APIs) for secretbox/box {easy, detached, open_easy, open_detached} in both cipher variants incl. "
+          "_afternm forms, crypto_sign and crypto_sign_open; CPU masks {all, -avx2, none, aes-off} rotated per case (thorough: all masks per case), builds native + noasm. "
+          "Non-trivial = real overlap (length > |off|) or off=0 with length >= 16; distinct = (build, API, length, offset, mask)."),
+    exhaustive_axes="offsets -80..+80 for every overlap-tolerant API; lengths 0..1280 for exact aliasing",
+    assumptions=ASSUME_COMMON + ["key / nonce / ad / message contents come from a splitmix64 stream seeded by VERIF_SEED"],
+)
